@@ -24,6 +24,7 @@ PROP = "C16"
 class P:
     def __init__(self):
         self.loaded = False          # vmod loaded in the process
+        self.loaded2 = False         # vmod2 (a name that begins with the other module's name) loaded in the process
         self.grants = frozenset()
         self.clone = False
         self.exe = None              # None | "granted" (compiled under a grant)
@@ -32,7 +33,7 @@ class P:
         self.exe_in_clone = False    # the clone was taken after the program was compiled
 
     def key(self):
-        return repr((self.loaded, sorted(self.grants), self.clone, self.exe, self.fn, self.fn_clone, self.exe_in_clone))
+        return repr((self.loaded, self.loaded2, sorted(self.grants), self.clone, self.exe, self.fn, self.fn_clone, self.exe_in_clone))
 
 
 def inc_path():
@@ -67,6 +68,11 @@ def ev_ops(name):
         "t:import-path": [op_run('import "%s";' % lib_path(), slot=c1)],
         "t:ctor-fn": [op_run("import vmod; function tmk() return vmod is begin return vmod(2); end; q2 = tmk();", slot=c1)],
         "t:clone-ctor": ["clone 1 3", op_run("import vmod; q3 = vmod(3);", slot=3)],
+        # the second module: a grant is for a whole name, not for the names that begin with it
+        "t:import2": [op_run("import vmod2;", slot=c1)],
+        "u:ctor2": [op_run("p1 = vmod2(1);", slot=c0)],
+        "u:ctor2-fn": [op_run("function mk3() return vmod2 is begin return vmod2(2); end; p2 = mk3();", slot=c0)],
+        "c:ctor2": [op_run("p1 = vmod2(11);", slot=c2)],
         "u:import": [op_run("import vmod;", slot=c0)],
         "u:import-path": [op_run('import "%s";' % lib_path(), slot=c0)],
         "u:include": [op_run('include "%s";' % inc_path(), slot=c0)],
@@ -88,7 +94,7 @@ def ev_ops(name):
     return table[name]
 
 
-EVENTS = ["grant-vmod", "grant-vmod2", "clear", "clone", "t:import", "t:ctor", "t:purge", "t:purgewm", "t:include", "t:import-path", "t:ctor-fn", "t:clone-ctor", "u:import", "u:import-path", "u:include", "u:ctor", "u:ctor-fn",
+EVENTS = ["grant-vmod", "grant-vmod2", "clear", "clone", "t:import", "t:import2", "u:ctor2", "u:ctor2-fn", "c:ctor2", "t:ctor", "t:purge", "t:purgewm", "t:include", "t:import-path", "t:ctor-fn", "t:clone-ctor", "u:import", "u:import-path", "u:include", "u:ctor", "u:ctor-fn",
           "u:ctor-copy", "u:ctor-upper", "u:decl", "u:param", "u:nullcall", "u:compile", "u:run-compiled", "u:call-fn", "c:ctor", "c:ctor-fn",
           "c:run-compiled", "c:call-fn"]
 
@@ -120,6 +126,15 @@ def step(p, name):
     if name == "t:import":
         p.loaded = True
         return True, "ok", False
+    if name == "t:import2":
+        p.loaded2 = True
+        return True, "ok", False
+    if name in ("u:ctor2", "u:ctor2-fn", "c:ctor2"):
+        if name == "c:ctor2" and not p.clone:
+            return False, None, False
+        if not p.loaded2:
+            return True, "undefined", False
+        return True, ("ok" if "vmod2" in p.grants else "refused"), False
     if name in ("t:ctor", "t:include", "t:ctor-fn", "t:clone-ctor", "t:import-path"):
         p.loaded = True
         return True, "ok", name != "t:import-path"
@@ -341,6 +356,9 @@ def check(case, res):
         where = "event %s after %s (loaded=%s, grants=%s)" % (e, hist[:hist.index(e)] if e in hist else hist, before.loaded, sorted(before.grants))
         untrusted_event = e.startswith("u:") or e.startswith("c:")
         compiled_without_grant = untrusted_event and "vmod" not in before.grants and e not in ("u:run-compiled", "c:run-compiled", "u:call-fn", "c:call-fn")
+        n2 = sum(1 for line in log.splitlines() if line.startswith("C vmod2 "))
+        if untrusted_event and "vmod2" not in before.grants and n2 > 0:
+            vs.append(Violation("object-without-grant:%s" % e, "an untrusted context created %d object(s) of vmod2, which is not granted (granted: %s): %s" % (n2, sorted(before.grants), where), case))
         if compiled_without_grant and ncreated > 0:
             vs.append(Violation("object-without-grant:%s" % e, "an untrusted context created %d object(s) of a module that is not granted: %s" % (ncreated, where), case))
         if want in ("any", "any-but-ungranted-object", None):
